@@ -185,10 +185,10 @@ def same_id(R, taken, pushed, facts):
     vt = R.variant_of(taken, facts)
     if pushed == taken:
         return True
-    vp = R.variant_of(pushed, facts)
-    if isinstance(pushed, tuple) and pushed[0] == "agg" and vp is not None:
+    vp, pfd = R.view(pushed, facts)
+    if isinstance(pushed, tuple) and pushed[0] in ("agg", "upd") and vp is not None and pfd is not None:
         idf = R.id_field.get(vp)
-        pid = dict(pushed[3]).get(idf)
+        pid = pfd.get(idf)
         if vt is not None and pid == ("field", taken, vt, R.id_field.get(vt)):
             return True
         # derived through an intermediate constructed order
@@ -199,7 +199,7 @@ def same_id(R, taken, pushed, facts):
 
 
 # ----------------------------------------------------------------------------- N2 / U2: what the removal arms return
-def rule_removal_returns(ctx, chk, L, rid, rid_notfound):
+def rule_removal_returns(ctx, chk, L, rid, rid_notfound, seq=False):
     """Cancel / price-move arms: exactly one Q.remove(own id); Some -> returns that very result; None -> Ok(None) and no effects.
     Any Ok(None) of update_order must come from a lookup that missed."""
     b, res, _ = L.paths("update_order")
@@ -209,6 +209,11 @@ def rule_removal_returns(ctx, chk, L, rid, rid_notfound):
     for r in res:
         if r.kind != "return":
             continue
+        if seq:
+            # single-threaded property: a lookup and a later removal of the same id denote the same order
+            r = seq_view(L, r)
+            if r is None:
+                continue
         arm = r.facts.variant.get(arg)
         if arm is None:
             chk.fail(rid, b.defp + ":no-arm", b.span, "a path does not discriminate the update kind", describe_path(r), undecided=True)
